@@ -133,10 +133,14 @@ def br_case(rng, strat):
     if rng.random() < 0.4:
         # a bucket count that divides the interval, of any size up to the interval itself: every such window is constructible
         # (br_counter_constructible); seed C15-f capped the count after the divisibility test
-        ivl = rng.choice([1500, 2500, 4500, 7000, 10010, 65536, 1001, 9999])
+        ivl = rng.choice([1500, 2500, 4500, 7000, 10010, 65536, 1001, 9999, 600000])
         divs = [d for d in range(1, ivl + 1) if ivl % d == 0]
         big = [d for d in divs if d > 1000]
         buckets = rng.choice(big) if big and rng.random() < 0.6 else rng.choice(divs[len(divs) // 2:] + [ivl])
+    if ivl == U32 and buckets == U32:
+        # a window of 2^32-1 one-millisecond buckets is accepted and would need some hundred GB: the allocation aborts the process.
+        # Outside the property's quantifier (intervals 1..600000 ms); characterised in DESIGN section 10, not asserted
+        buckets = rng.choice([0, 1, 3, 7, 1000])
     r = "rule fam=br id=r1 res=%s strat=%s retry=%d minreq=%d ivl=%d buckets=%d maxrt=%d thr=%s" % (
         res, strat, rng.choice([0, 1, 1000, 1000, U32]), rng.choice([0, 1, 5, 1000000]), ivl,
         buckets, rng.choice([0, 1, 50, U32]), pick(rng, THR_F, ["0", "1/2", "1", "5", "7/3"]))
@@ -377,7 +381,7 @@ def inflight_cases(rng):
 
 
 def gen(rng, tier):
-    k = 2 if tier == "quick" else 8
+    k = 2 if tier == "quick" else 20
     seq = sequence_cases(rng)
     if tier == "quick":
         seq = [c for c in seq if rng.random() < 0.45]       # every refusal clause still meets several entry-point pairs
